@@ -71,6 +71,22 @@ theorem inject_then_output_is_identity (body : InjectEventRequest)
   rw [injectEvent_data body hnd]
   exact ⟨rfl, roundtrip_okFields body.fields hok⟩
 
+/-- **through the evaluator**: with the pipeline `emit(a: f0 + 1, b: -f1, c: f2, d: f3)` between the two
+conversions, an injected `{f0: n, f1: x, f2: j₂, f3: j₃}` (n and n+1 in i64, j₂ j₃ in the lossless
+domain) comes back as `{a: n+1, b: -x, c: j₂, d: j₃}`: the computed fields have the JSON number kind of
+their type (integer stays integer, float stays float with exactly the negated bits), nested
+pass-through fields are returned unchanged -/
+theorem transformed_output (ty : String) (n : Int) (x : F64) (j₂ j₃ : Json)
+    (hn : fitsI64 n = true) (hn1 : fitsI64 (n + 1) = true) (hx : (negF64 x).isFinite = true)
+    (h₂ : j₂.ok = true) (h₃ : j₃.ok = true) :
+    (transformFields (injectEvent ⟨ty, [("f0", .int n), ("f1", .float x), ("f2", j₂), ("f3", j₃)]⟩).data).map valueToJsonFields
+      = some [("a", .int (n + 1)), ("b", .float (negF64 x)), ("c", j₂), ("d", j₃)] := by
+  have hd := injectEvent_data ⟨ty, [("f0", .int n), ("f1", .float x), ("f2", j₂), ("f3", j₃)]⟩
+    (by show ["f0", "f1", "f2", "f3"].Nodup; decide)
+  rw [hd]
+  simp [jsonToValueFields, jsonToValue, numToValue_fits hn, transformFields, lookupField, List.lookup, hn1,
+    valueToJsonFields, valueToJson, hx, roundtrip_ok j₂ h₂, roundtrip_ok j₃ h₃]
+
 /-- non-vacuity: a nested payload with both `i64` boundaries, a float, a string, null, an array and an object -/
 example :
     let j := Json.obj [("a", .int 9223372036854775807), ("b", .arr [.int (-9223372036854775808), .float ⟨0x3FF8000000000000⟩, .null]),
